@@ -403,6 +403,8 @@ struct Real {
     wal: Option<(tempfile::TempDir, std::path::PathBuf)>,
     /// (tx, shard) of every YES vote handed to `record_vote` (what the WAL holds as `PrepareVote::Yes`)
     yes_handed: HashSet<(usize, usize)>,
+    /// (tx, shard): an ABORT(tx) was delivered to the shard after the last PREPARE(tx) delivered there
+    abort_after_prepare: HashSet<(usize, usize)>,
 }
 
 fn mk_coord(cfg: &DistributedTxConfig) -> DistributedTxCoordinator {
@@ -473,6 +475,7 @@ impl Real {
             scratch: None,
             wal,
             yes_handed: HashSet::new(),
+            abort_after_prepare: HashSet::new(),
         }
     }
     /// canonical text of the coordinator's log as `TxWal::replay` reads it back (`showWalEntry` of the driver; the
@@ -843,6 +846,67 @@ impl Real {
         }
     }
 
+    /// the transaction's only decision is abort
+    fn abort_only(&self, tx: usize) -> bool {
+        self.decided.contains(&(tx, false)) && !self.decided.contains(&(tx, true))
+    }
+    /// why the coordinator aborted `tx` (the reason it queued with the abort broadcast), as a class infix
+    fn not_sent_class(&self, tx: usize) -> &'static str {
+        match self.reasons.iter().find(|r| r.0 == tx).map(|r| r.1.as_str()) {
+            Some("timeout") => "tensor_chain.distributed_tx.coordinator/timeout_abort_not_sent_to_prepared_participant",
+            Some("conflict") | Some("voted_no") => "tensor_chain.distributed_tx.coordinator/vote_abort_not_sent_to_prepared_participant",
+            Some("cross_shard") => "tensor_chain.distributed_tx.coordinator/cross_shard_abort_not_sent_to_prepared_participant",
+            _ => "tensor_chain.distributed_tx.coordinator/abort_not_sent_to_prepared_participant",
+        }
+    }
+    /// `settle` (Settle.lean `Sys.settle` / `Sys.stuck`): the network finally delivers every ABORT message that is in the
+    /// pool for a transaction whose only decision is abort (ordinary deliveries, pool order, every monitor armed).
+    /// ORACLE on the real objects: afterwards no participant of such a transaction is still prepared for it
+    /// (`get_awaiting_decision`) and no entry of its lock table names it.  Classes, computed from the pool: no ABORT
+    /// addressed to that participant is in the pool (`coordinator/<reason>_abort_not_sent_to_prepared_participant`), or
+    /// one was delivered and the participant kept the transaction (`participant/abort_delivered_but_tx_still_prepared`).
+    fn settle(&mut self) -> String {
+        let targets: Vec<usize> = (0..self.txs.len()).filter(|&t| self.abort_only(t)).collect();
+        let idx: Vec<usize> = (0..self.pool.len()).filter(|&i| matches!(&self.pool[i], RMsg::Abort { tx, .. } if targets.contains(tx))).collect();
+        for i in &idx {
+            self.exec(&format!("deliver {i}"));
+        }
+        let mut stuck: Vec<String> = vec![];
+        for &t in &targets {
+            for sh in self.txs[t].shards.clone() {
+                if sh >= self.parts.len() {
+                    continue;
+                }
+                let prepared = self.parts[sh].get_awaiting_decision().contains(&self.txs[t].real);
+                let locked: Vec<String> = self.holders(sh).iter().filter(|(_, h)| h.0 == t as u64).map(|(k, _)| kname(*k)).collect();
+                if !prepared && locked.is_empty() {
+                    continue;
+                }
+                stuck.push(format!("{t}.{sh}"));
+                let sent = self.pool.iter().any(|m| matches!(m, RMsg::Abort { tx, sh: s2 } if *tx == t && *s2 == sh));
+                let recorded = self.yes_handed.contains(&(t, sh));
+                self.hits.push(format!("settle.stuck.{}", if sent { "abort_delivered" } else { "abort_not_sent" }));
+                self.viol.push(Violation {
+                    class: if sent { "tensor_chain.distributed_tx.participant/abort_delivered_but_tx_still_prepared" } else { self.not_sent_class(t) },
+                    what: format!(
+                        "tx {t} (participants {:?}) has the one decision ABORT (decisions {:?}, reasons {:?}) and every ABORT message of it in the pool was delivered ({}), yet shard {sh} {} and holds its locks on [{}]; shard {sh} answered its PREPARE with {:?} (true = YES), its YES vote {} recorded by the coordinator; ABORT(tx {t}) addressed to shard {sh} is {} the pool",
+                        self.txs[t].shards,
+                        self.decided,
+                        self.reasons,
+                        idx.iter().map(|i| self.show_msg(&self.pool[*i])).collect::<Vec<_>>().join(" "),
+                        if prepared { "is still prepared for it (get_awaiting_decision)" } else { "keeps no prepared record" },
+                        locked.join(","),
+                        self.votes_cast.get(&(t, sh)).cloned().unwrap_or_default(),
+                        if recorded { "was handed to record_vote and" } else { "was never" },
+                        if sent { "in" } else { "NOT in" },
+                    ),
+                });
+            }
+        }
+        self.hits.push(format!("settle.{}", if targets.is_empty() { "no_aborted_tx" } else if stuck.is_empty() { "clean" } else { "stuck" }));
+        format!("settled {} stuck {} |", idx.len(), if stuck.is_empty() { "-".to_string() } else { stuck.join(",") })
+    }
+
     fn answer(&self, res: &str, from: usize) -> String {
         let msgs: Vec<String> = self.pool[from..].iter().map(|m| self.show_msg(m)).collect();
         format!("{} | {}", res, msgs.join(" ")).trim_end().to_string()
@@ -915,6 +979,9 @@ impl Real {
 
     fn exec(&mut self, line: &str) -> String {
         let w: Vec<&str> = line.split_whitespace().collect();
+        if w.as_slice() == ["settle"] {
+            return self.settle();
+        }
         let from = self.pool.len();
         let before = self.snapshots();
         let mut applying: Option<(usize, usize)> = None; // (shard, tx) of an applying commit delivery
@@ -970,6 +1037,35 @@ impl Real {
                             let vote = self.parts[sh].prepare(req);
                             if let PrepareVote::Yes { lock_handle, .. } = &vote {
                                 self.hdense(*lock_handle);
+                                self.abort_after_prepare.remove(&(tx, sh));
+                            }
+                            // a transaction whose only decision is ABORT does not keep later transactions off its keys once the
+                            // shard has been told: a CONFLICT vote never names such a transaction when (a) an ABORT of it was
+                            // delivered to this shard after its last PREPARE there, or (b) no ABORT addressed to this shard exists
+                            // at all (nothing will ever release the lock)
+                            if let PrepareVote::Conflict { conflicting_tx, .. } = &vote {
+                                let c = self.dense(*conflicting_tx) as usize;
+                                if c < self.txs.len() && c != tx && self.abort_only(c) {
+                                    let sent = self.pool.iter().any(|m| matches!(m, RMsg::Abort { tx: t2, sh: s2 } if *t2 == c && *s2 == sh));
+                                    let told = self.abort_after_prepare.contains(&(c, sh));
+                                    if !sent || told {
+                                        self.hits.push(format!("blocked_by_aborted_tx.{}", if sent { "abort_delivered" } else { "abort_not_sent" }));
+                                        self.viol.push(Violation {
+                                            class: if sent {
+                                                "tensor_chain.distributed_tx.participant/aborted_tx_blocks_later_tx_after_abort_delivery"
+                                            } else {
+                                                "tensor_chain.distributed_tx.coordinator/aborted_tx_blocks_later_tx_abort_never_sent"
+                                            },
+                                            what: format!(
+                                                "PREPARE(tx {tx}) on shard {sh} was refused with CONFLICT(tx {c}): tx {c} (participants {:?}) has the one decision ABORT (decisions {:?}, reasons {:?}) and {}",
+                                                self.txs[c].shards,
+                                                self.decided,
+                                                self.reasons,
+                                                if sent { format!("ABORT(tx {c}) was delivered to shard {sh} after its last PREPARE there") } else { format!("no ABORT(tx {c}) addressed to shard {sh} was ever queued: shard {sh} stays prepared and keeps the locks for good") }
+                                            ),
+                                        });
+                                    }
+                                }
                             }
                             // a PREPARE never changes the lock (holder, handle) of a key held by another tx
                             let held_after = self.holders(sh);
@@ -1108,6 +1204,9 @@ impl Real {
                             aborting = Some((sh, tx));
                             let _ = self.parts[sh].abort(real);
                             let still = self.parts[sh].get_awaiting_decision().contains(&real);
+                            if !still {
+                                self.abort_after_prepare.insert((tx, sh));
+                            }
                             if finished || (was && self.discarded.contains(&(sh, tx))) {
                                 self.hits.push(format!("late.abort_finished.{}", if was { "discarded_again" } else { "absent" }));
                                 if self.overlapping_commit_applied(sh, tx) {
@@ -2234,7 +2333,257 @@ fn gen_schedule_mode(r: &mut Rng, setup: &Setup, max_events: usize, rep: &mut Re
             lines.push(format!("deliver {i}"));
         }
     }
+    // every schedule ends with the network delivering the queued ABORTs of the aborted transactions (`settle` oracle)
+    lines.push("settle".to_string());
     lines
+}
+
+/// A script written against the REAL objects of the tree under test: pool indices are read off the real pool, so the
+/// same history is expressed correctly whatever messages the code under test queues.
+struct Script {
+    real: Real,
+    lines: Vec<String>,
+}
+impl Script {
+    fn new(setup: &Setup) -> Script {
+        Script { real: Real::for_setup(setup), lines: vec![] }
+    }
+    /// run one line; the pool indices of the messages it produced
+    fn run(&mut self, line: String) -> std::ops::Range<usize> {
+        let from = self.real.pool.len();
+        self.real.exec(&line);
+        self.lines.push(line);
+        from..self.real.pool.len()
+    }
+    fn deliver_all(&mut self, idx: std::ops::Range<usize>) -> std::ops::Range<usize> {
+        let from = self.real.pool.len();
+        for i in idx {
+            self.run(format!("deliver {i}"));
+        }
+        from..self.real.pool.len()
+    }
+    /// a whole transaction without any loss: begin, every PREPARE, every vote, commit(), every COMMIT
+    fn full_tx(&mut self, begin: String) {
+        let p = self.run(begin);
+        let v = self.deliver_all(p);
+        self.deliver_all(v);
+        let tx = self.real.txs.len().saturating_sub(1);
+        let c = self.run(format!("ccommit {tx}"));
+        self.deliver_all(c);
+    }
+}
+
+/// what happens to one participant of T0 around the coordinator's timeout
+#[derive(Clone, Copy, PartialEq, Debug)]
+enum Fate {
+    /// PREPARE delivered, YES recorded by the coordinator before the timeout
+    Recorded,
+    /// PREPARE delivered (locks taken, YES sent), the vote reaches the coordinator only after the timeout sweep
+    VoteDelayed,
+    /// PREPARE delivered, the vote is lost
+    VoteLost,
+    /// the PREPARE is lost
+    PrepareLost,
+    /// the PREPARE arrives after the abort was delivered (the re-sent ABORT cleans up)
+    PrepareLate,
+}
+
+/// The timeout-abort history: T0 over all shards, each participant meets its `Fate`, the coordinator's timeout fires,
+/// the queued ABORTs (and late votes, in either order) are delivered, `settle`; then T1 writes the same keys on every
+/// shard without loss and must commit everywhere; `settle` again.
+fn timeout_abort_script(setup: &Setup, fates: &[Fate], aborts_before_late_votes: bool, preload: bool) -> Vec<String> {
+    let n = setup.n;
+    let mut sc = Script::new(setup);
+    let shards: Vec<usize> = (0..n).collect();
+    let embs: Vec<u64> = (0..n as u64).map(|i| 1 + i % 3).collect();
+    let ops = |base: usize| (0..n).map(|sh| parse_ops(&format!("p{}={}", sh + 1, base + sh))).collect::<Vec<_>>();
+    if preload {
+        for sh in 0..n {
+            sc.run(format!("preload {sh} {} {}", sh + 1, 5 + sh));
+        }
+    }
+    let p = sc.run(begin_line(&shards, &ops(7), &embs));
+    let mut vote_idx: Vec<Option<usize>> = vec![None; n];
+    for sh in 0..n {
+        if matches!(fates[sh], Fate::Recorded | Fate::VoteDelayed | Fate::VoteLost) {
+            vote_idx[sh] = sc.run(format!("deliver {}", p.start + sh)).next();
+        }
+    }
+    for sh in 0..n {
+        if fates[sh] == Fate::Recorded {
+            if let Some(v) = vote_idx[sh] {
+                sc.run(format!("deliver {v}"));
+            }
+        }
+    }
+    sc.run("tick 3".into());
+    let a = sc.run("sweep".into());
+    if aborts_before_late_votes {
+        sc.deliver_all(a.clone());
+    }
+    for sh in 0..n {
+        if fates[sh] == Fate::VoteDelayed {
+            if let Some(v) = vote_idx[sh] {
+                sc.run(format!("deliver {v}"));
+            }
+        }
+    }
+    sc.run("settle".into());
+    if fates.contains(&Fate::PrepareLate) {
+        for sh in 0..n {
+            if fates[sh] == Fate::PrepareLate {
+                let v = sc.run(format!("deliver {}", p.start + sh));
+                sc.deliver_all(v);
+            }
+        }
+        sc.run("settle".into());
+    }
+    sc.full_tx(begin_line(&shards, &ops(20), &embs));
+    sc.run("settle".into());
+    sc.lines
+}
+
+fn plain_setup(n: usize) -> Setup {
+    Setup { n, t_units: 2, maxc: 100, lock_to: 1000, wallclock: false, age_parts: false, recovery: false, restart: false, wal: false }
+}
+
+/// Directed timeout-abort histories, run first.  The first ones are the shortest histories in which "the timeout abort
+/// is addressed to EVERY participant" is the only thing between a delayed / lost YES vote and a participant that stays
+/// prepared (holding the aborted transaction's locks) for good; the others are their neighbours.
+fn directed_timeout_abort() -> Vec<(String, Setup, Vec<String>)> {
+    use Fate::*;
+    let mut out = vec![];
+    let cases: Vec<(&str, Vec<Fate>, bool)> = vec![
+        ("2-shards/vote-delayed-past-timeout", vec![Recorded, VoteDelayed], false),
+        ("2-shards/vote-lost", vec![Recorded, VoteLost], false),
+        ("2-shards/vote-delivered-after-the-abort-deliveries", vec![Recorded, VoteDelayed], true),
+        ("2-shards/no-vote-recorded", vec![VoteDelayed, VoteLost], false),
+        ("2-shards/first-shard-vote-lost", vec![VoteLost, Recorded], true),
+        ("2-shards/every-vote-recorded", vec![Recorded, Recorded], true),
+        ("2-shards/prepare-lost", vec![Recorded, PrepareLost], false),
+        ("2-shards/prepare-after-abort", vec![Recorded, PrepareLate], true),
+        ("3-shards/vote-delayed-past-timeout", vec![Recorded, Recorded, VoteDelayed], false),
+        ("3-shards/vote-lost", vec![Recorded, VoteLost, Recorded], true),
+        ("3-shards/vote-delivered-after-the-abort-deliveries", vec![VoteDelayed, Recorded, Recorded], true),
+        ("3-shards/one-delayed-one-lost", vec![Recorded, VoteDelayed, VoteLost], false),
+        ("3-shards/prepare-lost-and-vote-lost", vec![PrepareLost, VoteLost, Recorded], true),
+        ("3-shards/prepare-after-abort-and-vote-delayed", vec![PrepareLate, VoteDelayed, Recorded], true),
+    ];
+    for (name, fates, abf) in cases {
+        let setup = plain_setup(fates.len());
+        let lines = timeout_abort_script(&setup, &fates, abf, true);
+        out.push((name.to_string(), setup, lines));
+    }
+    out
+}
+
+/// Random schedules of the same shape: random fates, a second transaction on overlapping or disjoint keys begun before
+/// the timeout with random progress, duplicated / reordered ABORT and vote deliveries, then `settle`, a loss-free
+/// follow-up transaction over the aborted transaction's keys, `settle`.
+fn gen_timeout_abort(r: &mut Rng, setup: &Setup) -> Vec<String> {
+    use Fate::*;
+    let n = setup.n;
+    let mut sc = Script::new(setup);
+    let nkeys = 1 + r.below(2);
+    for sh in 0..n {
+        for k in 0..nkeys {
+            if r.chance(1, 2) {
+                sc.run(format!("preload {sh} {k} {}", 1 + r.below(100)));
+            }
+        }
+    }
+    let mixed = r.chance(1, 3);
+    let mut all: Vec<usize> = (0..n).collect();
+    r.shuffle(&mut all);
+    let cnt = if r.chance(3, 4) { n } else { 2.min(n) };
+    let mut shards: Vec<usize> = all[..cnt].to_vec();
+    if r.chance(2, 3) {
+        shards.sort_unstable();
+    }
+    let embs: Vec<u64> = (0..shards.len() as u64).map(|i| 1 + i % 3).collect();
+    let ops0: Vec<Vec<Op>> = shards.iter().map(|_| gen_ops_kinds(r, nkeys, 0, mixed)).collect();
+    let p = sc.run(begin_line(&shards, &ops0, &embs));
+    let fates: Vec<Fate> = shards.iter().map(|_| match r.below(10) { 0..=3 => Recorded, 4..=6 => VoteDelayed, 7 => VoteLost, 8 => PrepareLost, _ => PrepareLate }).collect();
+    // a concurrent transaction, begun before the timeout, on overlapping (same key range) or disjoint keys
+    let concurrent = r.chance(1, 3);
+    let mut pending_msgs: Vec<usize> = vec![];
+    if concurrent {
+        let base = if r.chance(1, 2) { 0 } else { 10 };
+        let ops1: Vec<Vec<Op>> = shards.iter().map(|_| gen_ops_kinds(r, nkeys, base, mixed)).collect();
+        pending_msgs.extend(sc.run(begin_line(&shards, &ops1, &embs)));
+    }
+    let mut vote_idx: Vec<Option<usize>> = vec![None; shards.len()];
+    let mut order: Vec<usize> = (0..shards.len()).collect();
+    r.shuffle(&mut order);
+    for &i in &order {
+        if matches!(fates[i], Recorded | VoteDelayed | VoteLost) {
+            vote_idx[i] = sc.run(format!("deliver {}", p.start + i)).next();
+        }
+        if !pending_msgs.is_empty() && r.chance(1, 2) {
+            let j = pending_msgs.remove(r.below(pending_msgs.len() as u64) as usize);
+            pending_msgs.extend(sc.run(format!("deliver {j}")));
+        }
+    }
+    for &i in &order {
+        if fates[i] == Recorded {
+            if let Some(v) = vote_idx[i] {
+                pending_msgs.extend(sc.run(format!("deliver {v}")));
+            }
+        }
+    }
+    sc.run(format!("tick {}", 3 + r.below(2)));
+    let a: Vec<usize> = sc.run("sweep".into()).collect();
+    let mut later: Vec<usize> = a.clone();
+    for (i, f) in fates.iter().enumerate() {
+        if *f == VoteDelayed {
+            later.extend(vote_idx[i]);
+        }
+    }
+    later.extend(pending_msgs.drain(..));
+    r.shuffle(&mut later);
+    for i in later {
+        if r.chance(1, 8) {
+            continue; // lost
+        }
+        let more: Vec<usize> = sc.run(format!("deliver {i}")).collect();
+        if r.chance(1, 6) {
+            sc.run(format!("deliver {i}")); // duplicated
+        }
+        for j in more {
+            if r.chance(2, 3) {
+                let m2: Vec<usize> = sc.run(format!("deliver {j}")).collect();
+                for k in m2 {
+                    if r.chance(1, 2) {
+                        sc.run(format!("deliver {k}"));
+                    }
+                }
+            }
+        }
+    }
+    sc.run("settle".into());
+    for (i, f) in fates.iter().enumerate() {
+        if *f == PrepareLate {
+            let v = sc.run(format!("deliver {}", p.start + i));
+            if r.chance(1, 2) {
+                sc.deliver_all(v);
+            }
+        }
+    }
+    // the concurrent transaction is resolved (commit if it got that far, else the client aborts it)
+    if concurrent {
+        let c = sc.run("ccommit 1".into());
+        if c.is_empty() {
+            let c2 = sc.run("cabort 1".into());
+            sc.deliver_all(c2);
+        } else {
+            sc.deliver_all(c);
+        }
+    }
+    sc.run("settle".into());
+    // loss-free follow-up over the aborted transaction's operations
+    sc.full_tx(begin_line(&shards, &ops0, &embs));
+    sc.run("settle".into());
+    sc.lines
 }
 
 fn directed() -> Vec<(&'static str, Setup, Vec<String>)> {
@@ -2791,6 +3140,7 @@ const EXPECTED: &[&str] = &[
     "wrestart.decisions", "wrestart.no_decision", "wal.restart.nothing_restored", "wal.restart.restored_prepared",
     "wal.restart.after_abort_of_tx_with_a_logged_yes_from_every_participant", "wal.restart.crash_with_preparing_entry",
     "wal.restart.crash_with_prepared_entry", "wal.restart.crash_with_committing_entry", "wal.restart.crash_with_aborting_entry",
+    "settle.clean", "settle.no_aborted_tx",
 ];
 
 /// Does the script, run on fresh REAL objects only, trip the monitor `class`?
@@ -2883,6 +3233,25 @@ fn main() {
                     }
                 }
             }
+        }
+    }
+
+    // ---- timeout aborts with delayed / lost / late votes: `settle` oracle + loss-free follow-up transaction, first
+    // (`--skip-directed-timeout-abort`: mutation-testing aid, to see what the random streams find on their own)
+    let skip_ta = args.extra.iter().any(|a| a == "--skip-directed-timeout-abort");
+    for (name, setup, lines) in directed_timeout_abort().into_iter().filter(|_| !skip_ta) {
+        let o = run_script(&mut m, &mut rep, "directed-timeout-abort", &setup, &lines, true);
+        if o.tags.iter().any(|t| t == "outside_alphabet_event") {
+            rep.note(&format!("directed-timeout-abort history {name} left the alphabet (model flagged an event !outside)"));
+        }
+        // on the code as it is: T0 is aborted by the timeout, every settle is clean and the follow-up transaction commits
+        let ok = o.tags.iter().any(|t| t == "reason.timeout") && o.tags.iter().any(|t| t == "ccommit.ok") && !o.tags.iter().any(|t| t == "settle.stuck");
+        if o.violations.is_empty() && !o.disagreed && !ok {
+            rep.note(&format!("directed-timeout-abort history {name} did not reach timeout abort + clean settle + committed follow-up"));
+        }
+        record(&mut rep, &mut m, "directed-timeout-abort", &setup, &lines, &o);
+        if name == "2-shards/vote-delayed-past-timeout" {
+            rep.sample(json!({"stream": "directed-timeout-abort", "name": name, "setup": setup.init_line(), "script": lines}));
         }
     }
 
@@ -2994,6 +3363,23 @@ fn main() {
         record(&mut rep, &mut m, "schedules", &setup, &lines, &o);
         if i < 4 {
             rep.sample(json!({"stream": "schedules", "setup": setup.init_line(), "script": lines}));
+        }
+        violating += usize::from(!o.violations.is_empty());
+        if violating >= 6 {
+            break;
+        }
+    }
+
+    // ---- random timeout-abort schedules (random fates of the participants around the coordinator's timeout)
+    let mut r = root.fork("timeout-abort-schedules");
+    let mut violating = 0;
+    for i in 0..if args.thorough { 1500 } else { 120 } {
+        let setup = plain_setup(2 + r.below(2) as usize);
+        let lines = gen_timeout_abort(&mut r, &setup);
+        let o = run_script(&mut m, &mut rep, "timeout-abort-schedules", &setup, &lines, true);
+        record(&mut rep, &mut m, "timeout-abort-schedules", &setup, &lines, &o);
+        if i < 1 {
+            rep.sample(json!({"stream": "timeout-abort-schedules", "setup": setup.init_line(), "script": lines}));
         }
         violating += usize::from(!o.violations.is_empty());
         if violating >= 6 {
